@@ -164,7 +164,7 @@ pub fn static_problem<D: Store + Mk>(a: &Accepted<D>) -> Option<(String, String)
 pub fn dynamic_problem<D: Store + Mk>(mut a: Accepted<D>, max_steps: u64, acc: &mut Acc) -> Option<(String, String)> {
     a.m.host = Host::declining();
     a.m.max_instr = usize::MAX;
-    a.m.max_data = 4_000_000;
+    a.m.max_data = a.d0 + 60_000;
     let unit = a.m.add_unit().ok()?;
     start(&mut a.m, *a.build.jump_index(), unit).ok()?;
     let (r0, v0, f0) = (a.m.depth(), a.m.vals.len(), a.m.frames.len());
